@@ -35,7 +35,8 @@ TRUSTED = ["hand models lean/AwsVerif/Model/Sched.lean and Model/Heap.lean (tied
 ASSUMPTIONS = ["API contract (enforced by the client wrapper in harness and model): a task is scheduled only while not pending, "
                "cancelled only while pending", "task functions do not call run_all / clean_up themselves",
                "fewer than 2^63 tasks", "allocation does not fail other than through the forced-failure switch"]
-RULE = ("programs over 1..15 tasks (incl. histories with 6..15 timed tasks pending at once, cancels at every heap position, "
+RULE = ("cancel_task also on tasks that are not pending (never scheduled / already run / already cancelled; op cancel_raw, "
+        "outside the wrapper's contract guard): only that task's function may be invoked; programs over 1..15 tasks (incl. histories with 6..15 timed tasks pending at once, cancels at every heap position, "
         "and a small-scope slice over heap sizes 2..8): programs over 1..12 tasks: sched_now / sched_future / cancel / run_all / has_tasks / cleanup / failmode, task functions "
         "with per-generation scripts (schedule, self re-schedule, cancel incl. tasks already in the running batch), timestamps "
         "0 / equal / decreasing / UINT64_MAX; non-trivial = >=3 schedules, >=1 run_all with a non-empty batch, >=1 script "
@@ -312,7 +313,10 @@ def gen_heap_case(rng):
         fail = False
     ts = _ts_pool(rng, nt)
     pending = {}
+    never = set(rng.sample(range(nt), rng.choice([0, 1, 1, 2])))     # initialised (aws_task_init) but never scheduled
     for t in range(nt):
+        if t in never:
+            continue
         if fail and rng.random() < 0.5:
             ops.append("failmode 0"); fail = False
         ops.append(f"sched_future T{t} {_fmt_ts(ts[t])}")
@@ -321,9 +325,15 @@ def gen_heap_case(rng):
         ops.append("failmode 0")
     for _ in range(rng.randint(3, 25)):
         x = rng.random()
+        idle = [t for t in range(nt) if t not in pending]
+        if idle and rng.random() < 0.15:
+            # cancel_task on a task that is not pending (never scheduled / already run / already cancelled) while
+            # others are: its own function is invoked as cancelled and nothing else may happen
+            ops.append(f"cancel_raw T{rng.choice(idle)}")
+            continue
         if x < 0.5 and pending:
             u = rng.choice(sorted(pending))
-            ops.append(f"cancel T{u}")
+            ops.append(f"cancel_raw T{u}" if rng.random() < 0.1 else f"cancel T{u}")
             del pending[u]
         elif x < 0.75 and pending:
             vals = sorted(set(pending.values()))
@@ -373,7 +383,8 @@ def heap_slice(rng, tier):
                 arrs.append([rng.randint(1, 4) for _ in range(n)])
         for a in arrs:
             for k in range(n):
-                ops = [f"init {n}"] + [f"sched_future T{i} {a[i]}" for i in range(n)] + [f"cancel T{k}", "has_tasks"]
+                ops = [f"init {n + 1}"] + [f"sched_future T{i} {a[i]}" for i in range(n)] + \
+                      ([f"cancel_raw T{n}"] if k % 2 == 0 else []) + [f"cancel T{k}", f"cancel_raw T{k}", "has_tasks"]
                 rest = sorted(set(a[i] for i in range(n) if i != k))
                 if rest:
                     ops.append(f"run_all {rest[0]}")
@@ -445,22 +456,28 @@ def oracle(case, lines):
         t = l.split()
         return (int(t[2][1:]), int(t[3][1:]), t[4], int(t[5]))
 
-    def invoke(ent, status, now, batch_left, why):
-        """ent is the log entry of an invocation the property allows at this point; replay its script"""
+    def invoke(ent, status, now, batch_left, why, raw=False):
+        """ent is the log entry of an invocation the property allows at this point; replay its script
+        (raw: cancel_task called by the client on a task that is not pending — the function is invoked once more)"""
         t, g, st, nw = ent
-        if t not in sp.pending:
-            raise OracleError(f"{why}: T{t} invoked ({st}) although it is not pending")
-        p = sp.pending[t]
-        if g != p["gen"]:
-            raise OracleError(f"{why}: T{t} invoked with generation {g}, pending generation is {p['gen']}")
-        if (t, g) in sp.done:
-            raise OracleError(f"{why}: T{t} generation {g} invoked a second time")
+        if raw:
+            if g != sp.gen[t]:
+                raise OracleError(f"{why}: T{t} invoked with generation {g}, its current generation is {sp.gen[t]}")
+        else:
+            if t not in sp.pending:
+                raise OracleError(f"{why}: T{t} invoked ({st}) although it is not pending")
+            p = sp.pending[t]
+            if g != p["gen"]:
+                raise OracleError(f"{why}: T{t} invoked with generation {g}, pending generation is {p['gen']}")
+            if (t, g) in sp.done:
+                raise OracleError(f"{why}: T{t} generation {g} invoked a second time")
         if st != status:
             raise OracleError(f"{why}: T{t} invoked with status {st}, expected {status}")
         if nw != now:
             raise OracleError(f"{why}: T{t} logged time {nw}, call time is {now}")
         sp.done.add((t, g))
-        del sp.pending[t]
+        if not raw:
+            del sp.pending[t]
         for a in sp.scripts.get((t, g, "run" if status == "RUN" else "canceled"), []):
             if a[0] == "now":
                 sp.sched(a[1], 0, True)
@@ -545,6 +562,22 @@ def oracle(case, lines):
                     invoke(ent, "CANCELED", sp.now, [], why)
                 else:
                     sp.skipped += 1
+            elif t[0] == "cancel_raw":
+                u = int(t[1][1:])
+                if u >= sp.nt:
+                    sp.skipped += 1
+                else:
+                    before = dict((k, dict(v)) for k, v in sp.pending.items())
+                    ent = take_log()
+                    if ent is None or ent[0] != u:
+                        raise OracleError(f"{why}: cancel_task(T{u}) invoked {('T%d' % ent[0]) if ent else 'nothing'} instead of T{u}")
+                    if u in sp.pending:
+                        invoke(ent, "CANCELED", sp.now, [], why)
+                    else:
+                        # not pending: its function is invoked as cancelled; NO OTHER task may be invoked or disappear
+                        invoke(ent, "CANCELED", sp.now, [], why, raw=True)
+                        if not sp.scripts.get((u, ent[1], "canceled")) and sp.pending != before:
+                            raise OracleError(f"{why}: cancelling the non-pending T{u} changed the pending set")
             elif t[0] == "run_all":
                 sp.now = MAX if t[1] == "MAX" else int(t[1])
                 run_batch(sp.now, "RUN", why, True)
